@@ -385,7 +385,8 @@ def kernel_sequence_obligations(ctx, rule, events):
         # kernels (except the model state that transition threads through)
         proto = repo.cls("liesel.goose.types.Kernel").own_method(kname)
         pnames = [p for p in proto.params() if p != "self"] if proto is not None else []
-        own = [p for p in mfi.params() if p != "self"]
+        # (keyword-only parameters with defaults are not part of the kernel protocol)
+        own = [p for p in mfi.pos_params() if p != "self"]
         call = kcalls[0][0]
         first = 1 if m == "init_states" else 2
         for j in range(first, len(own)):
